@@ -193,6 +193,41 @@ def oracle(rep, cases):
     rep.evaluations += len(lines)
 
 
+def big_cases(env):
+    """large, highly redundant generators around the point where the raw byte cost alone reaches the block limit
+    (max_block_cost_clvm / cost_per_byte = 916 666 bytes): under INTERNED_GENERATOR validation charges the (tiny) interned
+    size and accepts them, so the trusted helpers must not run out of their fixed budget; without the flag validation
+    itself rejects above the point.  Implementation-level oracle only (1 MB is out of reach of the Gallina SHA-256)."""
+    cpb_limit = G.BLOCK // 12000
+    out = []
+    for size in (cpb_limit - 700, cpb_limit + 400, 1000000):
+        for fl in (F["DONT_VALIDATE_SIGNATURE"] | F["INTERNED_GENERATOR"], F["DONT_VALIDATE_SIGNATURE"]):
+            out.append((fl, size))
+    return out
+
+
+def big_line(fl, size):
+    return "gen.oracle09 %d %d %s -" % (fl, G.BLOCK, G.big_redundant_generator(size).hex())
+
+
+def run_big(rep, descriptors):
+    lines = [big_line(fl, size) for fl, size in descriptors]
+    outs = G.vh(lines, shards=len(lines))
+    st = rep.streams.setdefault("gen.oracle09.big", {"cases": 0, "results": {}})
+    for (fl, size), o in zip(descriptors, outs):
+        d = "gen.oracle09big %d %d" % (fl, size)
+        st["cases"] += 1
+        st["results"][d] = o[:120]
+        rep.evaluations += 1
+        rep.nontrivial.add(("gen.oracle09.big", fl, size, o[:12]))
+        want = "OK accepted" if (fl & F["INTERNED_GENERATOR"] or size * 12000 + 40 <= G.BLOCK) else "OK rejected"
+        if not o.startswith(want):
+            # the case is stored as a short descriptor: the replay regenerates the program (G.big_redundant_generator)
+            rep.add_failure("gen.oracle09", d, o[:300], want,
+                            "large redundant generator (plain size %d bytes, flags %d): a trusted helper or validation "
+                            "behaves differently from the expected verdict" % (size, fl))
+
+
 def run(ctx):
     rep, tier = ctx["rep"], ctx["tier"]
     rng = C.SplitMix64(ctx["seed"])
@@ -201,7 +236,10 @@ def run(ctx):
         f = json.load(open(ctx["replay"]))
         fi = f["failing_input"]
         line = fi["case"]
-        if fi["stream"] == "gen.oracle09":
+        if fi["stream"] == "gen.oracle09" and line.startswith("gen.oracle09big "):
+            t = line.split(" ")
+            run_big(rep, [(int(t[1]), int(t[2]))])
+        elif fi["stream"] == "gen.oracle09":
             o = G.vh([line])[0]
             if not o.startswith("OK"):
                 rep.add_failure("gen.oracle09", line, o, "OK", "replayed: a trusted helper differs from full validation")
@@ -297,6 +335,7 @@ def run(ctx):
     run_rebuild(rep, cases, ctx["have_model"])
     run_sbadd(rep, cases, ctx["have_model"])
     oracle(rep, cases + impl_only)
+    run_big(rep, big_cases(env))
     rep.streams["gen.oracle09"]["implementation_only_files"] = sorted({t[1] for c in impl_only for t in c["tags"]})
 
     # fixed regression inputs: the former witnesses of F-C09-1 (0a21e864) and F-C09-2 (1aa0e3f6) must pass
